@@ -39,13 +39,14 @@ if os.path.exists(extra):
     CHECKS.update(m.CHECKS)
     for k in m.CHECKS: NOT_APPLICABLE.pop(k, None)
     NOT_APPLICABLE.update(getattr(m, "NOT_APPLICABLE", {}))
+FUZZ = {"C01": " && ./fuzz.sh fuzz_ops 12000 1024", "C06": " && ./fuzz.sh fuzz_join 3000000 256", "C14": " && ./fuzz.sh fuzz_handles 250000 256"}
 checks = []
 for pid in sorted(CHECKS):
     level, ref, tech, text, note = CHECKS[pid]
     checks.append({
         "property_id": pid,
         "quick_cmd": f"./run {pid} quick",
-        "thorough_cmd": f"./run {pid} thorough",
+        "thorough_cmd": f"./run {pid} thorough" + FUZZ.get(pid, ""),
         "evidence_file": f"/verif/evidence/{pid}.json",
         "replay_cmd_template": "./run replay {path}",
         "engine": "vv",
